@@ -192,6 +192,20 @@ func shrinkPlan(c *Case, try func(*Case) bool) bool {
 				any = true
 			}
 		}
+		if c.Plan.Fault.Kind != "" {
+			d := c.Clone()
+			d.Plan.Fault.Kind = ""
+			if try(d) {
+				any = true
+			}
+		}
+		if c.Plan.Fault.Resume {
+			d := c.Clone()
+			d.Plan.Fault.Resume = false
+			if try(d) {
+				any = true
+			}
+		}
 	}
 	return any
 }
